@@ -208,6 +208,20 @@ def run_tlc(ctx, module, cfg, workers=None, timeout=600, on_scn=None, extra=None
     return res
 
 
+def run_tlapm(ctx, module, timeout=600):
+    """Check the proofs of spec/<module>.tla with the TLA+ proof system in a scratch copy of spec/.
+    Returns (ok, number of obligations proved, tail of the output)."""
+    work = ctx.sub("tlapm-" + module)
+    for f in os.listdir(SPEC):
+        if f.endswith(".tla"):
+            shutil.copy(os.path.join(SPEC, f), work)
+    p = subprocess.run(["timeout", "-k", "10", str(timeout), "tlapm", "--threads", str(min(NCPU, 12)), module + ".tla"], cwd=work,
+                       capture_output=True, text=True)
+    out = (p.stdout + p.stderr).splitlines()
+    m = re.search(r"All (\d+) obligations? proved", "\n".join(out))
+    return (p.returncode == 0 and m is not None), (int(m.group(1)) if m else 0), out[-25:]
+
+
 def tlc_must_ok(ctx, res, what):
     if res.status != "ok":
         tail = "\n".join(res.out[-40:])
